@@ -72,7 +72,12 @@ static void verif_thread_state (sexp ctx, char *buf, size_t len) {
                   (sexp_context_timeval(sexp_car(ls)).tv_sec != 0 || sexp_context_timeval(sexp_car(ls)).tv_usec != 0));
   o += snprintf(buf+o, len-o, "],\"cw\":[%d,%d,%d]", (int)sexp_context_waitp(ctx), (int)sexp_context_timeoutp(ctx), sexp_context_refuel(ctx) > 0);
 }
-#define VERIF_EV(ctx, ...) do { if (sexp_verif_tracing() && !verif_internal) { char vbuf_[4096], vst_[3072]; \
+static int verif_threads_on (void) {
+  static int on = -1;
+  if (on < 0) on = (getenv("CHIBI_VERIF_THREADS") && atoi(getenv("CHIBI_VERIF_THREADS"))) ? 1 : 0;
+  return on && sexp_verif_tracing();
+}
+#define VERIF_EV(ctx, ...) do { if (verif_threads_on() && !verif_internal) { char vbuf_[4096], vst_[3072]; \
     verif_thread_state(ctx, vst_, sizeof(vst_)); snprintf(vbuf_, sizeof(vbuf_), __VA_ARGS__); \
     sexp_verif_emit("%s,\"t\":%d,%s", vbuf_, sexp_verif_thread_id(ctx), vst_); } } while (0)
 static int verif_timedp (sexp timeout) { return (timeout && (sexp_realp(timeout) || sexp_contextp(timeout))) ? 1 : 0; }
@@ -145,7 +150,7 @@ sexp sexp_make_thread (sexp ctx, sexp self, sexp_sint_t n, sexp thunk, sexp name
   /*     ls2 = sexp_cons(ctx, sexp_car(ls1), ls2); */
   /* sexp_context_params(res) = ls2; */
 #if CHIBI_VERIF
-  if (sexp_verif_tracing()) { sexp_verif_thread_id(ctx); sexp_verif_emit("\"e\":\"MakeThread\",\"t\":%d,\"u\":%d", sexp_verif_thread_id(ctx), sexp_verif_thread_new(res)); }
+  { int verif_u = sexp_verif_thread_new(res); if (verif_threads_on()) sexp_verif_emit("\"e\":\"MakeThread\",\"t\":%d,\"u\":%d", sexp_verif_thread_id(ctx), verif_u); }
 #endif
   sexp_gc_release1(ctx);
   return res;
